@@ -45,7 +45,17 @@ var (
 	mu    sync.Mutex
 	queue []ndValue
 	cur   *replayResult
+	ufTab map[string]bool // interpretation of the uninterpreted predicates taken from the solver's model
 )
+
+// UFPred is an arbitrary (but fixed) predicate on strings: under the symbolic executor an
+// uninterpreted function, so that a verdict holds for every pure predicate; natively it
+// answers as the solver's model did.
+func UFPred(name, s string) bool {
+	mu.Lock()
+	defer mu.Unlock()
+	return ufTab[name+"\x00"+s]
+}
 
 func pop(kind, name string) (ndValue, bool) {
 	mu.Lock()
@@ -183,7 +193,19 @@ func RunReplay(t *testing.T, entries map[string]func(int)) {
 		}
 		res := &results[i]
 		mu.Lock()
-		queue = c.Values
+		queue = nil
+		ufTab = map[string]bool{}
+		for _, v := range c.Values {
+			if v.Kind == "uf" {
+				b := make([]byte, len(v.Bytes))
+				for i, x := range v.Bytes {
+					b[i] = byte(x)
+				}
+				ufTab[v.Name+"\x00"+string(b)] = v.Bool
+			} else {
+				queue = append(queue, v)
+			}
+		}
 		cur = res
 		mu.Unlock()
 		func() {
